@@ -272,3 +272,21 @@ Proof.
   - destruct chunks; [congruence|]. cbn [length]. lia.
   - lia.
 Qed.
+
+  (* ---- reported length = bytes returned ---- *)
+
+(* the length the footer reports for a range is the length of the bytes the range read returns *)
+Theorem xorb_range_length_is_length_of_range lz4c lz4d choose :
+  (forall x, lz4d (lz4c x) = Some x) -> (forall x, choose x <= MAX_SCHEME) ->
+  forall cashash chunks hashes scheme a b,
+  xorb_input_ok cashash chunks hashes -> fold_right N.add 0 (phys_lens lz4c choose chunks scheme) < 4294967296 ->
+  bytes_eqb cashash zero_hash = false -> scheme_valid scheme -> a < b -> b <= N.of_nat (length chunks) ->
+  exists d,
+    get_bytes_by_chunk_range lz4d (built_info lz4c choose cashash chunks hashes scheme) (xorb_serialize lz4c choose cashash chunks hashes scheme) a b = ROk d /\
+    uncompressed_range_length (built_info lz4c choose cashash chunks hashes scheme) a b = ROk (N.of_nat (length d)).
+Proof.
+  intros Hrt Hcv cashash chunks hashes scheme a b Hin Hp Hz Hs Hab Hbn.
+  exists (concat (firstn (N.to_nat (b - a)) (skipn (N.to_nat a) chunks))). split.
+  - apply (xorb_get_chunk_range lz4c lz4d choose Hrt Hcv); assumption.
+  - apply xorb_uncompressed_range_length; auto; lia.
+Qed.
